@@ -234,12 +234,85 @@ def probe_mixed_instances_of_one_class(seed, cases=30):
     return fails
 
 
+def probe_mixin_resume(seed, cases=24):
+    """A domain model that gets its machine from `MachineMixin`, its fields — the stored state among them — from its own
+    initialiser, with the mixin before or after the class that loads them in the MRO, or from a class attribute. A record
+    that holds a state is *resumed*: no callback runs, the stored value is left alone; a record without one is activated
+    exactly once."""
+    import random
+    import sys
+    import warnings
+    from statemachine import State, StateMachine
+    from statemachine.mixins import MachineMixin
+    try:
+        from store_impl import _django
+        _django()
+    except Exception:  # noqa: BLE001
+        pass
+    fails = []
+    mod = sys.modules[__name__]
+    for k in range(cases):
+        rng = random.Random(f"{seed}:mixin-resume:{k}")
+        log = []
+        stored = rng.choice([None, "draft", "paid", "shipped"])
+        order = rng.choice(["mixin-first", "record-first", "class-attribute"])
+        field = rng.choice(["state", "status"])
+        bind = rng.random() < 0.4
+        name = f"_MixinMachine{k}_{abs(hash(str(seed))) % 1000}"
+        with warnings.catch_warnings():
+            warnings.simplefilter("ignore")
+
+            def on_enter_state(self, state, event):
+                log.append(("machine", state.id, str(event)))
+            M = type(StateMachine)(name, (StateMachine,), dict(
+                draft=(d := State(initial=True)), paid=(pd := State()), shipped=(sh := State(final=True)),
+                pay=d.to(pd), ship=pd.to(sh), on_enter_state=on_enter_state, __module__=__name__))
+            setattr(mod, name, M)
+
+            class Record:
+                def __init__(self, **fields):
+                    for n, v in fields.items():
+                        setattr(self, n, v)
+                    super().__init__()
+
+            ns = dict(state_machine_name=f"{__name__}.{name}", state_field_name=field, bind_events_as_methods=bind,
+                      on_enter_draft=lambda self: log.append(("model", "enter draft")),
+                      on_enter_paid=lambda self: log.append(("model", "enter paid")))
+            try:
+                if order == "class-attribute":
+                    ns[field] = stored
+                    Order = type("Order", (MachineMixin,), ns)
+                    o = Order()
+                else:
+                    bases = (MachineMixin, Record) if order == "mixin-first" else (Record, MachineMixin)
+                    Order = type("Order", bases, ns)
+                    o = Order(**{field: stored})
+                at_creation = list(log)
+                value = getattr(o, field)
+                o.statemachine.activate_initial_state()
+                after_activate = list(log)
+            except Exception as e:  # noqa: BLE001
+                fails.append(f"case {k} ({order}, field {field!r}, stored {stored!r}): {type(e).__name__}: {e}")
+                continue
+        what = f"case {k}: MachineMixin model ({order}, field {field!r}) created over a record that stores {stored!r}"
+        if stored is None:
+            want = [("machine", "draft", "__initial__"), ("model", "enter draft")]
+            if sorted(at_creation) != sorted(want) or value != "draft":
+                fails.append(f"{what}: callbacks at creation {at_creation}, field {value!r}; expected the initial state entered once")
+        else:
+            if at_creation or value != stored:
+                fails.append(f"{what}: callbacks ran while resuming {at_creation}, field now {value!r}")
+        if after_activate != at_creation:
+            fails.append(f"{what}: activating again ran {after_activate[len(at_creation):]}")
+    return fails
+
+
 def run(ctx):
     lean_obligations(ctx)
     from framework import safe_probe
-    for nm, fn in (("created_inside_callback", probe_created_inside_callback), ("mixed_instances_of_one_class", probe_mixed_instances_of_one_class)):
+    for nm, fn in (("created_inside_callback", probe_created_inside_callback), ("mixed_instances_of_one_class", probe_mixed_instances_of_one_class), ("mixin_resume", probe_mixin_resume)):
         pf = safe_probe(fn, ctx.seed)
-        ctx.coverage[nm + "_cases"] = 40 if nm.startswith("created") else 30
+        ctx.coverage[nm + "_cases"] = 40 if nm.startswith("created") else 24 if nm.startswith("mixin_") else 30
         if pf:
             ctx.violation(ctx.write_replay(nm + ".txt", "\n".join(pf[:12]) + "\n"), pf[0][:200])
     from framework import run_py_corpus
